@@ -14,12 +14,12 @@ One JSON object per line, one JSON reply per line.
 {"a":"recvReqVote","n":i,"m":M}           M = {"k":"reqVote","t","cand","dst","li","lt"}
 {"a":"recvVote","n":i,"m":M}              M = {"k":"vote","t","voter","cand"}
 {"a":"clientAppend","n":i,"cmd":c}
-{"a":"sendAppend","n":i,"dst":j,"prev":p,"k":cnt}
+{"a":"sendAppend","n":i,"dst":j,"prev":p,"k":cnt,"c":commitPos}   (c: the commit value written into the message)
 {"a":"recvAppend","n":i,"m":M}            M = {"k":"append","t","ldr","dst","prev","prevTerm","es":[[term,cmd]…],"commit"}
 {"a":"recvAck","n":i,"m":M}               M = {"k":"ack","t","flw","ldr","idx"}
 {"a":"advanceCommit","n":i,"i":pos}
 {"a":"stepDown","n":i}   {"a":"apply","n":i}   {"a":"observeTerm","n":i,"t":t}
-{"a":"sendSnapshot","n":i,"dst":j,"k":pos}
+{"a":"sendSnapshot","n":i,"dst":j,"k":pos,"c":commitPos}
 {"a":"recvSnapshot","n":i,"m":M}          M = {"k":"snapshot","t","ldr","dst","pos","posTerm","commit"[,"pfx":[[term,cmd]…]]}
 {"a":"lose","m":M}
 {"a":"restart","n":i,"c":commitPos,"ap":appliedPos}
